@@ -52,6 +52,100 @@ func main() {
 	c := core.New("C32", "exploration")
 	c.Set("rule", "every value of each width is enumerated (16/32-bit: all; 64-bit: structured byte alphabet); a case is non-trivial when it is a distinct (encoder,value) whose encoding has at least two different bytes; order preservation is checked on every adjacent pair (v,v+1), which implies it for all pairs, and for 16-bit also on all 2^32 ordered pairs")
 
+	// ---- returned slices are the caller's: scribbling over an encoding (e.g. to derive a range-end key) must not
+	// change what the same value encodes to afterwards (no shared buffers / tables)
+	for _, e := range encs32 {
+		e := e
+		vals := []uint32{0, 1, 2, 5, 6, 255, 256, 1023, 1024, 65535, 65536, 1<<31 - 1, 1 << 31, 1<<32 - 1}
+		for v := uint32(0); v < 2048; v++ {
+			vals = append(vals, v)
+		}
+		if c.Lead() {
+			for _, v := range vals {
+				b := e.enc(v)
+				for i := range b {
+					b[i] ^= 0xa5
+				}
+				b2 := e.enc(v)
+				c.Count("evaluations", 1)
+				if e.dec(b2) != v {
+					c.Violation("encoding-aliases-shared-memory", []interface{}{e.name, v}, "%s: after the caller modified the slice returned for %d, encoding %d again decodes to %d", e.name, v, v, e.dec(b2))
+					break
+				}
+				for i := range b2 {
+					b2[i] ^= 0xa5 // restore whatever may be shared, so that later parts are not affected
+				}
+			}
+		}
+	}
+	for _, e := range encs64 {
+		e := e
+		if c.Lead() {
+			for v := uint64(0); v < 2048; v++ {
+				b := e.enc(v)
+				for i := range b {
+					b[i] ^= 0xa5
+				}
+				b2 := e.enc(v)
+				c.Count("evaluations", 1)
+				if e.dec(b2) != v {
+					c.Violation("encoding-aliases-shared-memory", []interface{}{e.name, v}, "%s: after the caller modified the slice returned for %d, encoding %d again decodes to %d", e.name, v, v, e.dec(b2))
+					break
+				}
+				for i := range b2 {
+					b2[i] ^= 0xa5
+				}
+			}
+		}
+	}
+
+	// ---- the library's own sort helper for event IDs must agree with the byte-wise order, i.e. sort by
+	// epoch, then Lamport time, then tail: every 3-element and 4-element multiset of IDs over a small
+	// (epoch, lamport, tail) alphabet in every arrangement
+	if c.Lead() {
+		var ids []hash.Event
+		for _, ep := range []uint32{1, 2, 0x01000000} {
+			for _, lp := range []uint32{1, 2, 300} {
+				for _, tl := range []byte{0, 9} {
+					var me dag.MutableBaseEvent
+					me.SetEpoch(idx.Epoch(ep))
+					me.SetLamport(idx.Lamport(lp))
+					var tail [24]byte
+					tail[0] = tl
+					me.SetID(tail)
+					ids = append(ids, me.ID())
+				}
+			}
+		}
+		n := len(ids)
+		less := func(a, b hash.Event) bool {
+			if a.Epoch() != b.Epoch() {
+				return a.Epoch() < b.Epoch()
+			}
+			if a.Lamport() != b.Lamport() {
+				return a.Lamport() < b.Lamport()
+			}
+			return bytes.Compare(a.Bytes()[8:], b.Bytes()[8:]) < 0
+		}
+		bad := false
+		for i := 0; i < n && !bad; i++ {
+			for j := 0; j < n && !bad; j++ {
+				for k := 0; k < n && !bad; k++ {
+					list := hash.OrderedEvents{ids[i], ids[j], ids[k]}
+					list.ByEpochAndLamport()
+					c.Count("evaluations", 1)
+					for x := 1; x < len(list); x++ {
+						if less(list[x], list[x-1]) {
+							c.Violation("sort-helper-order", []int{i, j, k}, "OrderedEvents.ByEpochAndLamport put (epoch %d, lamport %d) after (epoch %d, lamport %d)", list[x].Epoch(), list[x].Lamport(), list[x-1].Epoch(), list[x-1].Lamport())
+							bad = true
+							break
+						}
+					}
+				}
+			}
+		}
+	}
+
 	// ---- 16 bit: all values, all pairs
 	enc16 := make([][]byte, 65536)
 	var nontriv int64
